@@ -28,6 +28,10 @@ def cases(tier, seed):
             for op in ('clone', 'detach', 'cpu', 'to_same', 'numpy'):
                 cs.append({'scen': 'copies', 's': dict(s, op=op)})
             if dt == 'float64':
+                for pre in ('offset', 'strided'):
+                    cs.append({'scen': 'copies', 's': dict(s, op='clone', presliced=pre)})
+                    cs.append({'scen': 'save_load_cores', 's': dict(s, sliced=pre)})
+            if dt == 'float64':
                 cs.append({'scen': 'copies', 's': dict(s, op='to_other', to='float32')})
                 cs.append({'scen': 'copies', 's': dict(s, op='to_other', to='complex128')})
             if dt == 'float32':
